@@ -42,6 +42,10 @@ func c14Bundles(cfg *vh.Config) []bundleT {
 		bundles[i] = genBundle(rB)
 	}
 	bundles[0] = collisionBundle()
+	if nB > 3 {
+		bundles[1] = nestedDirBundle()
+		bundles[2] = sharedShortNameBundle()
+	}
 	return bundles
 }
 
